@@ -91,7 +91,8 @@ func TestVerifC13(t *testing.T) {
 					e.Close()
 				}
 			}()
-			e.VCreate("ia", distance.Euclidean, 4, 8, distance.Float32, "english", nil, nil, nil)
+			// "ia" carries an auto-link rule: every add with a "cat" field issues a nested VLink
+			e.VCreate("ia", distance.Euclidean, 4, 8, distance.Float32, "english", nil, []hnsw.AutoLinkRule{{MetadataField: "cat", RelationType: "in_cat"}}, nil)
 			mem := hnsw.MemoryConfig{Enabled: true, DecayModel: hnsw.DecayExponential, DecayHalfLife: hnsw.Duration(time.Hour)}
 			e.VCreate("ib", distance.Cosine, 8, 16, distance.Float32, "", nil, nil, &mem)
 			for _, ix := range []string{"ia", "ib"} {
@@ -139,6 +140,7 @@ func TestVerifC13(t *testing.T) {
 			}()
 			var unsubOnce sync.Once
 			var stalledSubs atomic.Int64
+			var freshIndexes atomic.Int64
 			tmpSub := e.EventBus.Subscribe(4)
 
 			var clock atomic.Int64 // porcupine timestamps
@@ -191,6 +193,22 @@ func TestVerifC13(t *testing.T) {
 						ix := vkit.Pick(r, []string{"ia", "ib"})
 						id := vkit.Pick(r, ids)
 						wasClosed := closeReturned.Load()
+						// now and then a client creates an index of its own and puts the first
+						// vector(s) into it while the others (and the admin goroutine) go on:
+						// the index's lazily initialised parts come to life under load
+						if i%61 == (c*7)%61 {
+							fresh := fmt.Sprintf("fresh_%d_%d", c, i)
+							prec := vkit.Pick(r, []distance.PrecisionType{distance.Float32, distance.Float16})
+							if e.VCreate(fresh, distance.Euclidean, 4, 8, prec, "", nil, nil, nil) == nil {
+								freshIndexes.Add(1)
+								if r.Chance(0.5) {
+									e.VAdd(fresh, "first", []float32{r.F32(), 1, 2}, map[string]any{"cat": "x"})
+								} else {
+									e.VAddBatch(fresh, []types.BatchObject{{Id: "first", Vector: []float32{1, r.F32(), 2}}, {Id: "second", Vector: []float32{2, 1, r.F32()}}})
+								}
+								e.VSearch(fresh, []float32{1, 1, 1}, 2, "", "", 0, 1.0, nil)
+							}
+						}
 						switch p := r.Intn(100); {
 						case p < 12:
 							e.VAdd(ix, id, []float32{r.F32(), r.F32(), r.F32()}, map[string]any{"cat": vkit.Pick(r, []string{"x", "y"}), "n": float64(r.Intn(5))})
@@ -352,6 +370,7 @@ func TestVerifC13(t *testing.T) {
 			ctx.Count("distinct_cross_goroutine_hook_pairs", int64(nPairs))
 			ctx.Count("events_drained", drained.Load())
 			ctx.Count("stalled_subscribers", stalledSubs.Load())
+			ctx.Count("fresh_indexes_under_load", freshIndexes.Load())
 
 			if wl == "W4_close" {
 				doClose()
